@@ -227,4 +227,19 @@ CHECKS = {
   'note': TB,
   'technique': 'Coq filter/projection commutation, cache-history and QueryString round-trip theorems over translated Filter shapes + extracted-model correspondence and projected encoding/json oracle on generated types, values, queries and orders',
  },
+ 'C04': {
+  'text': ("Proof (Coq): (1) parser completeness on the image of the encoder: for EVERY value tree (any nesting, any members left out by omitempty) whose leaves are well formed, "
+           "the text Marshal writes is accepted by the strict RFC 8259 recogniser with nothing left over, its token sequence is the value's, and a recursive-descent reader "
+           "builds from it exactly the tree that was written minus the members left out; every string AppendString writes and every integer AppendInt/AppendUint writes is "
+           "such a leaf (from the C17 / C16 theorems over the translated tables). (2) for every width and every integer, the integer decoder reads AppendInt's / AppendUint's "
+           "text back as the same integer. (3) for every byte string, the string decoder reads AppendString's literal back as the same string. Observed: generated "
+           "round-trippable values of the lossless C01 grammar (extreme integers of every width, 17-digit floats, every escape class, nil/empty containers, nesting; "
+           "round-trippable = encoding/json's own round trip gives the value back) through Marshal->Unmarshal, Marshal(&v), MarshalIndent, Encoder->Decoder, "
+           "indenting Encoder -> Decoder fed one byte at a time, encoding/json's text -> Unmarshal, and streams of several values through one Encoder and one Decoder. "
+           "One defect found and repaired (escaped struct key across a stream buffer refill, recorded under C09). Partial: floats and base64 are strconv / encoding/base64 on "
+           "both sides (not modelled); how the typed decoders store leaves into Go memory is observed, not modelled; values whose shape is one of C01's open encoder findings "
+           "are left to C01."),
+  'note': TB,
+  'technique': 'Coq parser-completeness / tree-read-back theorem over the emission model plus integer and string round-trip theorems over translated tables + generated-value round trips through every encode/decode route against encoding/json\'s own round trip',
+ },
 }
